@@ -1108,6 +1108,217 @@ void World::corrupt_pages(const Step& s)
     have_prev = false;
 }
 
+// ------------------------------------------------------------------ C02 converse, schema 1.x
+// The independent encoder stores the six 1.x blobs (in the shapes the 1.x
+// format allows: grids of 0 or >= 2 increasing markers, main-cue flag consistent
+// with the two cue values, no trailing bytes) and the library must read back
+// the same logical content through the public track API.
+void World::foreign_write_v1(const Step& s, int64_t id, int ti)
+{
+    Rng r(s.vseed ^ 0xF1F1F1ull);
+    ref::TrackData1 td;
+    static const double rates[] = {44100, 48000, 0, 22050.5, 96000, 1.5};
+    td.sample_rate = rates[r.below(6)];
+    static const int64_t ss[] = {0, 1, 44100 * 300, 1ll << 40, 16061375};
+    td.samples = ss[r.below(5)];
+    td.loudness = r.chance(1, 4) ? 0.0 : r.unit();
+    td.key = (int32_t)r.below(25);
+    ref::HighRes hr;
+    size_t hn = r.chance(1, 3) ? 0 : (s.size >= 3 ? 3000 + r.below(3000) : r.below(200));
+    hr.n1 = hr.n2 = (int64_t)hn;
+    hr.samples_per_entry = (double)r.range(0, 1000);
+    for (size_t i = 0; i < hn; ++i)
+    {
+        uint64_t x = r.next();
+        hr.pts.push_back({(uint8_t)x, (uint8_t)(x >> 8), (uint8_t)(x >> 16), (uint8_t)(x >> 24), (uint8_t)(x >> 32), (uint8_t)(x >> 40)});
+    }
+    {
+        uint64_t x = r.next();
+        hr.max = {(uint8_t)x, (uint8_t)(x >> 8), (uint8_t)(x >> 16), (uint8_t)(x >> 24), (uint8_t)(x >> 32), (uint8_t)(x >> 40)};
+    }
+    ref::Overview ov;
+    size_t on = r.chance(1, 3) ? 0 : 1024;
+    ov.n1 = ov.n2 = (int64_t)on;
+    ov.samples_per_point = (double)r.range(0, 100000);
+    for (size_t i = 0; i < on; ++i)
+    {
+        uint64_t x = r.next();
+        ov.pts.push_back({(uint8_t)x, (uint8_t)(x >> 8), (uint8_t)(x >> 16)});
+    }
+    ref::BeatData bd;
+    bd.sample_rate = td.sample_rate;
+    bd.samples = (double)td.samples;
+    bd.is_set = (uint8_t)r.below(3);
+    auto grid1 = [&](size_t n) {
+        std::vector<ref::Marker> g;
+        int64_t beat = r.range(-8, 8);
+        double off = (double)r.range(-1000, 1000) + 0.25;
+        for (size_t i = 0; i < n; ++i)
+        {
+            ref::Marker m;
+            m.offset = off;
+            m.beat = beat;
+            g.push_back(m);
+            beat += r.range(1, 64);
+            off += (double)r.range(1, 100000) + r.unit();
+        }
+        for (size_t i = 0; i + 1 < g.size(); ++i)
+            g[i].beats_to_next = (int32_t)(g[i + 1].beat - g[i].beat);
+        return g;
+    };
+    size_t gn = r.chance(1, 3) ? 0 : 2 + r.below(s.size >= 3 ? 900 : 12);
+    bd.adj = grid1(gn);
+    bd.def = r.chance(1, 2) ? bd.adj : grid1(r.chance(1, 2) ? 0 : 2 + r.below(5));
+    if (r.chance(1, 2))
+        bd.extra.assign(9, 0);
+    ref::QuickCues qc;
+    size_t cn = r.chance(1, 2) ? 8 : r.below(13);
+    for (size_t i = 0; i < cn; ++i)
+    {
+        ref::Cue c;
+        c.label = any_label(r);
+        c.offset = r.chance(1, 3) ? -1.0 : (double)r.range(0, 10000000) + (r.chance(1, 2) ? 0.5 : 0);
+        auto col = gen_color(r);
+        c.a = col.a;
+        c.r = col.r;
+        c.g = col.g;
+        c.b = col.b;
+        qc.cues.push_back(c);
+    }
+    qc.adj_main = r.chance(1, 4) ? 0.0 : (double)r.range(1, 1000000);
+    qc.def_main = r.chance(1, 2) ? qc.adj_main : (double)r.range(1, 1000000);
+    qc.is_adj = qc.adj_main != qc.def_main ? 1 : (uint8_t)r.below(2);
+    ref::Loops lp;
+    size_t ln = r.chance(1, 2) ? 8 : r.below(13);
+    for (size_t i = 0; i < ln; ++i)
+    {
+        ref::Loop l;
+        l.label = any_label(r);
+        l.start = r.chance(1, 3) ? -1.0 : (double)r.range(0, 10000000);
+        l.end = (double)r.range(0, 20000000);
+        l.start_set = l.end_set = l.start != -1.0;
+        auto col = gen_color(r);
+        l.a = col.a;
+        l.r = col.r;
+        l.g = col.g;
+        l.b = col.b;
+        lp.loops.push_back(l);
+    }
+    {
+        HDb d;
+        bool ok = d.open(db_path(*this, true), false) &&
+                  d.run("UPDATE PerformanceData SET trackData = ?, highResolutionWaveFormData = ?, overviewWaveFormData = ?, beatData = ?, "
+                        "quickCues = ?, loops = ? WHERE id = ?",
+                        {HDb::Bind::Blob(ref::zwrap(ref::enc_track1(td), 1 + (int)r.below(9))),
+                         HDb::Bind::Blob(ref::zwrap(ref::enc_highres(hr), 1 + (int)r.below(9))),
+                         HDb::Bind::Blob(ref::zwrap(ref::enc_overview(ov), 1 + (int)r.below(9))),
+                         HDb::Bind::Blob(ref::zwrap(ref::enc_beat(bd), 1 + (int)r.below(9))),
+                         HDb::Bind::Blob(ref::zwrap(ref::enc_cues(qc), 1 + (int)r.below(9))), HDb::Bind::Blob(ref::enc_loops(lp)),
+                         HDb::Bind::Int(id)});
+        if (!ok)
+        {
+            note("f_write1 failed: " + d.err);
+            return;
+        }
+    }
+    foreign_tracks.insert(id);
+    probes.hit("foreign_write");
+    probes.hit("foreign_write_v1");
+    note("f_write1 track " + std::to_string(id) + " -> stored");
+    auto& t = *tracks[ti].h;
+    std::string F = fam();
+    auto bad = [&](const std::string& field, const std::string& why) {
+        report("C02", "C02|foreign|" + F + "|track." + field,
+               "1.x track " + std::to_string(id) + " holding blobs from the independent encoder: " + field + " " + why);
+    };
+    dj::track_snapshot sn;
+    Outcome o = call(FaultSpec{}, [&] { sn = t.snapshot(); });
+    if (o.threw)
+    {
+        report("C02", "C02|foreign|" + F + "|rejected", "snapshot() cannot read 1.x blobs the independent encoder produced: " + o.exc + ": " + o.what);
+        return;
+    }
+    probes.hit("foreign_read_back");
+    if (sn.sample_rate.has_value() != (td.sample_rate != 0) || (sn.sample_rate && !bits_eq(*sn.sample_rate, td.sample_rate)))
+        bad("sample_rate", "differs from the stored value");
+    if (sn.sample_count.has_value() != (td.samples != 0) || (sn.sample_count && *sn.sample_count != (unsigned long long)td.samples))
+        bad("sample_count", "differs from the stored value");
+    if (sn.average_loudness.has_value() != (td.loudness != 0) || (sn.average_loudness && !bits_eq(*sn.average_loudness, td.loudness)))
+        bad("average_loudness", "differs from the stored value");
+    // (a stored key of 0 means "none in the blob"; the snapshot then falls back to the key in the
+    //  integer metadata, which the foreign writer did not touch)
+    if (td.key != 0 && (!sn.key || (int32_t)*sn.key != td.key))
+        bad("key", "differs from the stored value");
+    if (sn.waveform.size() != hr.pts.size())
+        bad("waveform", "has " + std::to_string(sn.waveform.size()) + " entries for " + std::to_string(hr.pts.size()) + " stored");
+    else
+        for (size_t i = 0; i < hr.pts.size(); ++i)
+        {
+            auto& e = sn.waveform[i];
+            auto& q = hr.pts[i];
+            if (e.low.value != q[0] || e.mid.value != q[1] || e.high.value != q[2] || e.low.opacity != q[3] || e.mid.opacity != q[4] ||
+                e.high.opacity != q[5])
+            {
+                bad("waveform", "entry " + std::to_string(i) + " differs");
+                break;
+            }
+        }
+    if (sn.beatgrid.size() != bd.adj.size())
+        bad("beatgrid", "has " + std::to_string(sn.beatgrid.size()) + " markers for " + std::to_string(bd.adj.size()) + " stored");
+    else
+        for (size_t i = 0; i < bd.adj.size(); ++i)
+            if ((int64_t)sn.beatgrid[i].index != bd.adj[i].beat || !bits_eq(sn.beatgrid[i].sample_offset, bd.adj[i].offset))
+            {
+                bad("beatgrid", "marker " + std::to_string(i) + " differs");
+                break;
+            }
+    if (sn.main_cue.has_value() != (qc.adj_main != 0) || (sn.main_cue && !bits_eq(*sn.main_cue, qc.adj_main)))
+        bad("main_cue", "differs from the stored adjusted main cue");
+    if (sn.hot_cues.size() < qc.cues.size())
+        bad("hot_cues", "returns fewer slots than stored");
+    for (size_t i = 0; i < sn.hot_cues.size(); ++i)
+    {
+        bool present = i < qc.cues.size() && qc.cues[i].offset != -1.0;
+        if (sn.hot_cues[i].has_value() != present)
+        {
+            bad("hot_cues", "slot " + std::to_string(i) + " presence differs");
+            break;
+        }
+        if (present)
+        {
+            auto& e = qc.cues[i];
+            auto& c = *sn.hot_cues[i];
+            if (c.label != e.label || !bits_eq(c.sample_offset, e.offset) || c.color.a != e.a || c.color.r != e.r || c.color.g != e.g || c.color.b != e.b)
+            {
+                bad("hot_cues", "slot " + std::to_string(i) + " content differs");
+                break;
+            }
+        }
+    }
+    if (sn.loops.size() < lp.loops.size())
+        bad("loops", "returns fewer slots than stored");
+    for (size_t i = 0; i < sn.loops.size(); ++i)
+    {
+        bool present = i < lp.loops.size() && lp.loops[i].start != -1.0;
+        if (sn.loops[i].has_value() != present)
+        {
+            bad("loops", "slot " + std::to_string(i) + " presence differs");
+            break;
+        }
+        if (present)
+        {
+            auto& e = lp.loops[i];
+            auto& c = *sn.loops[i];
+            if (c.label != e.label || !bits_eq(c.start_sample_offset, e.start) || !bits_eq(c.end_sample_offset, e.end) || c.color.a != e.a ||
+                c.color.r != e.r || c.color.g != e.g || c.color.b != e.b)
+            {
+                bad("loops", "slot " + std::to_string(i) + " content differs");
+                break;
+            }
+        }
+    }
+}
+
 bool World::exec_foreign_op(const Step& s)
 {
     if (s.op.compare(0, 2, "f_") != 0)
@@ -1193,6 +1404,14 @@ bool World::exec_foreign_op(const Step& s)
         if (!f.td.extra.empty() || !f.qc.extra.empty() || !f.lp.extra.empty() || !f.ov.extra.empty())
             probes.hit("foreign_trailing_bytes");
         check_converse_v2(*this, id, f);
+        finish(s.op);
+        return true;
+    }
+    if (s.op == "f_write1")
+    {
+        if (v2)
+            return true;
+        foreign_write_v1(s, id, ti);
         finish(s.op);
         return true;
     }
